@@ -16,6 +16,8 @@ import attr
 import dead
 import rec
 import hom
+import step
+import engine as _engine
 
 
 def _c11_fsm(ctx):
@@ -35,6 +37,7 @@ def _c11_rest(ctx):
     pair.rule_newdelete(ctx)
     sib.rule_finish_siblings(ctx)
     rec.rule_recognisers(ctx)
+    scratch_rule(ctx)
 
 
 def _c04(ctx):
@@ -45,13 +48,76 @@ def _c04(ctx):
     lazy.rule_lazy_caches(ctx)
     lazy.rule_lazy_preserve(ctx)
     lazy.rule_lazy_latch(ctx)
+    scratch_rule(ctx)
     pair.rule_shadow(ctx)
     pair.rule_newdelete(ctx)
 
 
+def _filtered(rule, keep):
+    """Run a rule whose inventory spans several properties and keep the instances that belong to this one
+    (floors, notes and analysed functions are kept whole: a broken inventory is broken for every property)."""
+    def run(ctx):
+        sub = _engine.Ctx(ctx.facts, ctx.root, ctx.prop, ctx.tier)
+        r = rule(sub)
+        for i in sub.instances:
+            if keep(ctx.prop, i):
+                ctx.instances.append(i)
+        ctx.floors.update(sub.floors)
+        ctx.notes.extend(sub.notes)
+        ctx.analysed_functions |= sub.analysed_functions
+        return r
+    run.__name__ = rule.__name__
+    return run
+
+
+def _keep_step(prop, inst):
+    anchors = (inst.detail or {}).get("anchors") if isinstance(inst.detail, dict) else None
+    k = inst.key
+    for pat, props in (("Homogenization", ("C10",)), ("min_x", ("C20",)), ("minx", ("C20",))):
+        if pat in k and prop in props:
+            return True
+    if anchors:
+        return prop in anchors
+    # sibling pairs / groups: g3 regularisation list under C19, min_x_ and ind[] fills under C01/C10, writer summaries under C12
+    if "g3::" in k:
+        return prop == "C19"
+    if "activeCov" in k or "Cluster" in k:
+        return prop == "C10"
+    if "summary" in k:
+        return prop == "C12"
+    return prop in ("C01",)
+
+
+_SCRATCH_HOME = [
+    ("ICGS", ("C01", "C02", "C04", "C20")),
+    ("local::GKFparser", ("C10", "C11")),
+    ("DataParser", ("C19", "C11")),
+    ("g3::", ("C19",)),
+    ("local::LocalNetwork", ("C14", "C04", "C01")),
+    ("Homogenization", ("C10", "C01", "C04")),
+    ("Envelope", ("C16", "C04", "C20", "C01")),
+    ("SparseMatrix", ("C16",)),
+    ("SymMat", ("C16", "C15")),
+    ("SVD", ("C01", "C04", "C15")),
+    ("Adj", ("C01", "C03", "C04")),
+]
+
+
+def _keep_scratch(prop, inst):
+    k = inst.key.split(":", 1)[1]
+    for pat, props in _SCRATCH_HOME:
+        if k.startswith(pat):
+            return prop in props
+    return prop == "C04"
+
+
+step_rule = _filtered(step.rule_step, _keep_step)
+scratch_rule = _filtered(step.rule_scratch, _keep_scratch)
+
+
 PROPS = {
     "C01": {
-        "rules": [idx.rule_idx_c01, mpt.rule_mpt_c01, lazy.rule_lazy_preserve],
+        "rules": [idx.rule_idx_c01, mpt.rule_mpt_c01, lazy.rule_lazy_preserve, step_rule, scratch_rule],
         "explanation": "R-IDX: index-space qualifier inference (U original unknown, P permuted position, O observation row, ...) over "
                        "the solution path of all four solvers (AdjEnvelope::solve_*, Envelope::set, AdjCholDec::solve, AdjGSO/AdjSVD::solve, "
                        "SVD::solve/min_subset_x): no integer variable or API slot receives two different index spaces. R-MPT: CFG "
@@ -62,14 +128,14 @@ PROPS = {
     },
     "C02": {
         "rules": [sib.rule_solver_siblings, sib.rule_badreg_signalled, sib.rule_error_counters_consumed, lazy.rule_lazy_solvers,
-                  tab.rule_algorithms, tab.rule_who_depends, lazy.rule_lazy_rethrow, lazy.rule_lazy_preserve],
+                  tab.rule_algorithms, tab.rule_who_depends, lazy.rule_lazy_rethrow, lazy.rule_lazy_preserve, scratch_rule],
         "explanation": "R-SIB: the four AdjBase implementations implement every pure virtual of the interface; R-ERR: each solver's "
                        "solve path reaches a throw of Exception::BadRegularization and the ICGS error counter is consumed; R-LAZY L1/L2 "
                        "for every query of every solver (same typestate obligations for the four siblings). R-ERR rethrow: queries made inside null_space()'s handler (lindep, defect) cannot throw BadRegularization again from any flag state in which a solver throws it; R-LAZY PRESERVE; R-TAB T1/T4 algorithm names and who-may-depend. Numerical agreement of the "
                        "four algorithms is not decided.",
     },
     "C03": {
-        "rules": [idx.rule_idx_c03, lazy.rule_lazy_caches],
+        "rules": [idx.rule_idx_c03, lazy.rule_lazy_caches, step_rule, scratch_rule],
         "explanation": "R-IDX restricted to the cofactor queries and their helpers (q_xx, q0_xx, q_bb, q_bx, T_row, T, dot) of the four "
                        "solvers and Adj::q_bb, plus the cache rule: every MoveToFront cache object is looked up with keys of one index space. "
                        "R-LAZY CACHE: every method that writes an input the cache content depends on erases the cache index on every path. "
@@ -90,7 +156,7 @@ PROPS = {
                        "which quantile, the degrees-of-freedom formula, the eigen-decomposition - the arithmetic identities themselves.",
     },
     "C10": {
-        "rules": [sib.rule_finish_siblings, mpt.rule_mpt_c10],
+        "rules": [sib.rule_finish_siblings, mpt.rule_mpt_c10, step_rule, scratch_rule],
         "explanation": "R-SIB(b): each of GKFparser::finish_obs/hdiffs/coords/vectors compares the declared covariance dimension with "
                        "the number of observations of the cluster before the matrix is filled (CFG dominance) and factorises a copy "
                        "under try/catch -> error(); process_cov accepts only dim >= 1 and 0 <= band < dim. R-MPT: homogenisation / "
@@ -98,7 +164,7 @@ PROPS = {
     },
     "C14": {
         "rules": [sib.rule_removed_pairing, sib.rule_obs_partition, mpt.rule_mpt_c14, tab.rule_rm_points, tab.rule_cluster_casts,
-                  lazy.rule_lazy_cascade, sib.rule_revision_lookup_siblings],
+                  lazy.rule_lazy_cascade, sib.rule_revision_lookup_siblings, step_rule, scratch_rule],
         "explanation": "R-PAIR P1: every set_unused_xy/z in LocalNetwork is post-dominated by removed(id, code) with a reason code of the "
                        "same axis class; partition: revision_observations puts every observation on exactly one of the used / removed "
                        "lists, cleared first, and counts the used list; R-MPT: remove_huge_abs_terms re-triggers the revision after "
@@ -106,14 +172,14 @@ PROPS = {
                        "Equality of results with the reduced input is not decided.",
     },
     "C16": {
-        "rules": [idx.rule_idx_c16, mpt.rule_mpt_c16],
+        "rules": [idx.rule_idx_c16, mpt.rule_mpt_c16, step_rule, scratch_rule],
         "explanation": "R-IDX over SparseMatrixOrdering/ReverseCuthillMcKee/Envelope::set (perm: P->U, invp: U->P, graph nodes U, "
                        "envelope rows P); R-MPT: inverse_permutaion() follows algorithm() on every path of SparseMatrixOrdering::reset, "
                        "the ordering precedes Envelope::set, cholDec precedes solve. Numerical equality with dense LDL' is not decided.",
     },
     "C20": {
         "rules": [idx.rule_idx_c20, sib.rule_badreg_signalled, sib.rule_error_counters_consumed, sib.rule_nullspace_catch,
-                  lazy.rule_lazy_cascade, lazy.rule_lazy_rethrow],
+                  lazy.rule_lazy_cascade, lazy.rule_lazy_rethrow, step_rule, scratch_rule],
         "explanation": "R-IDX on the four lindep implementations (the index handed to the factor / permutation / singular-value "
                        "store is in the space that store expects); R-ERR: every solver can signal an unresolvable regularisation and "
                        "LocalNetwork::null_space() handles exactly Exception::BadRegularization, rethrows everything else, and removes "
@@ -137,7 +203,7 @@ PROPS = {
                        "R-SIB: every handler allocates the x index of a point before its y index, so results do not depend on which observation touches a point first. The other equivalences (translation, rotation of the circle, permutation, renaming, units) relate different runs and are not decided.",
     },
     "C12": {
-        "rules": [esc.rule_esc_adjxml, esc.rule_str2xml, fsm2.rule_xsd_adjxml, esc.rule_ysign, lin.rule_unit, dead.rule_dead_local, mpt.rule_mpt_c12],
+        "rules": [esc.rule_esc_adjxml, esc.rule_str2xml, fsm2.rule_xsd_adjxml, esc.rule_ysign, lin.rule_unit, dead.rule_dead_local, mpt.rule_mpt_c12, step_rule],
         "explanation": "R-ESC: three-valued taint analysis (clean / sanitised / tainted, field-based, function summaries) - no PointID, "
                        "description, extern value or exception message reaches a markup sink of LocalNetworkXML, its observation visitor, "
                        "XMLerror, the HTML and SVG writers unsanitised; the sanitiser str2xml maps < > & \" ' to the right entities; the "
@@ -146,7 +212,7 @@ PROPS = {
     },
     "C13": {
         "rules": [attr.rule_attr_flow, attr.rule_attr_export, esc.rule_esc_export, esc.rule_ysign, tab.rule_cluster_casts,
-                  sib.rule_export_scale_siblings, dead.rule_dead_local],
+                  sib.rule_export_scale_siblings, dead.rule_dead_local, step_rule],
         "explanation": "R-ATTR: per GKFparser handler the accepted attribute names are extracted; every parsed attribute value reaches "
                        "the model (A2); attributes written by export_xml are accepted by the corresponding handler and the schema, and every "
                        "stored attribute is written back (A4). R-ESC for export_xml/DisplayObservationVisitor, R-YSIGN, and export covers all "
@@ -154,7 +220,7 @@ PROPS = {
                        "R-DEAD: status chains (fixed / constrained / free) have no dead branch. That re-adjustment of the exported file needs no iteration is not decided.",
     },
     "C15": {
-        "rules": [dim.rule_dim, pair.rule_memrep],
+        "rules": [dim.rule_dim, pair.rule_memrep, step_rule, scratch_rule],
         "explanation": "R-DIM: in every lib/matvec function touching elements of two or more operands a dimension comparison whose failing "
                        "branch throws Exception::BadRank (or a resize / a checking callee) dominates the first element access; R-PAIR P3: "
                        "MemRep's owning pointer comes only from new[], null or a moved-from rvalue, copies allocate and copy exactly the "
@@ -172,7 +238,7 @@ PROPS = {
     },
     "C19": {
         "rules": [tab.rule_g3_visitors, lazy.rule_lazy_chain, lazy.rule_lazy_adj, tab.rule_algorithms, fsm2.rule_dataparser,
-                  esc.rule_esc_g3, pair.rule_newdelete, dead.rule_dead_g3],
+                  esc.rule_esc_g3, pair.rule_newdelete, dead.rule_dead_g3, step_rule, scratch_rule],
         "explanation": "R-VIS V2 every g3 visitor covers all concrete g3 observation classes; R-LAZY stage chain of g3::Model and "
                        "typestate of Adj; R-TAB T1 algorithm names; R-FSM DataParser automaton (no silent error, absorbing error state, "
                        "depth discipline, init() role table verified against its body); R-ESC g3 writers; R-PAIR P2. R-DEAD for the parameter-status chains of g3. Adjusted "
@@ -192,7 +258,7 @@ PROPS = {
                        "themselves is not decided - only that no query can observe a stale or not-yet-computed field.",
     },
     "C11": {
-        "rules": [_c11_fsm, _c11_rest],
+        "rules": [_c11_fsm, _c11_rest, step_rule],
         "explanation": "Structural necessary conditions of 'any input is adjusted or refused with a located "
                        "diagnostic, safely', decided on facts exported from the current sources (clang AST+CFG): "
                        "R-FSM rebuilds the parser automata by value-partitioned constant propagation of the state "
